@@ -22,7 +22,10 @@ def intD (j : Json) (k : String) : Int :=
 def caseOf (j : Json) : R Case := do
   pure { scenario := ← strF j "scenario", panicSite := ← strF j "panicSite", coolDownNs := ← natF j "coolDownNs",
          intervalNs := ← natF j "intervalNs", latencyNs := ← natF j "latencyNs", services := ← natF j "services", work := natD j "work", holdCtx := boolD j "holdCtx" false,
-         auxMax := ← natF j "auxMax" }
+         auxMax := ← natF j "auxMax",
+         family := (asStr (fieldD j "family" (.str ""))).toOption.getD "",
+         ctorFault := (asStr (fieldD j "ctorFault" (.str ""))).toOption.getD "",
+         closeFault := (asStr (fieldD j "closeFault" (.str ""))).toOption.getD "" }
 
 /-- canonical observation from the harness's `impl` object -/
 def obsOf (impl : Json) : Obs :=
@@ -54,7 +57,10 @@ def obsOf (impl : Json) : Obs :=
     bubbleEnded := boolD impl "bubbleEnded" false,
     after2ndServiceStart := natD after2 "serviceStart", after2ndService := natD after2 "service",
     panicsInjected := natD impl "panics", resumed := boolD impl "resumed" false, resumedWithinNs := within.toNat,
-    othersTicked := boolD impl "othersTicked" false, pipelineDone := boolD impl "pipelineDone" false }
+    othersTicked := boolD impl "othersTicked" false, pipelineDone := boolD impl "pipelineDone" false,
+    ctorFailed := boolD impl "ctorErr" true && boolD impl "ctorNil" true,
+    ctorLeft := (let l := fieldD impl "ctorLeft" (Json.mkObj []); natD l "serviceStart" + natD l "service" + natD l "aux" + natD l "inflight") +
+                natD impl "ctorCalls" + natD impl "ctorSubs" }
 
 def closeAtBucket (ns : Nat) : String :=
   if ns = 0 then "0" else if ns < 1000000 then "<1ms" else if ns < 1000000000 then "<1s"
@@ -218,11 +224,39 @@ def checkTraceV2 (evs : Array Ev) : TraceVerdict :=
   searchTrace sysV2 { c := V2.vinit } evs fun items =>
     V2.vtraceOk evs (items.map fun | .inl i => V2.VItem.ev i | .inr _ => V2.VItem.park)
 
+def sysX : Sys TStateX (CLabel ⊕ Option Bool) where
+  key s := tkey s.t ++ #[if s.ctxDone then 1 else 0, s.cancels]   -- (`closeErrOk` and `honours` are constant along a search)
+  evStep := tstepX
+  hidden s :=
+    (hiddenLabels.filterMap fun l =>
+      if hiddenOk s.t l then (xrun s.x [.core l]).map fun x' => (Sum.inl l, s.withX x') else none) ++
+    (if s.cancels = 0 then [] else
+      match xrun s.x [.ctxCancel] with
+      | some x' => [(Sum.inr (some true), { s.withX x' with cancels := s.cancels - 1 })]
+      | none => []) ++
+    (match xrun s.x [.gCtxSeen] with
+     | some x' => [(Sum.inr (some false), s.withX x')]
+     | none => []) ++
+    (if s.closeErrOk then
+      match xrun s.x [.cSvcCloseErr] with
+      | some x' => [(Sum.inr none, s.withX x')]
+      | none => []
+     else [])
+
+def checkTraceX (latched honours : Bool) (cancels : Nat) (evs : Array Ev) (closeErrOk : Bool := false) : TraceVerdict :=
+  searchTrace sysX (tinitX latched honours cancels closeErrOk) evs fun items =>
+    traceOkX latched honours cancels evs (items.map fun
+      | .inl i => ItemX.ev i
+      | .inr (.inl l) => ItemX.hid l
+      | .inr (.inr (some true)) => ItemX.cancel
+      | .inr (.inr (some false)) => ItemX.gctx
+      | .inr (.inr none) => ItemX.closeErr) closeErrOk
+
 def evOf (j : Json) : R (Nat × Ev) := do
   pure (← natF j "r", { pt := ← strF j "p", g := ← natF j "g", k := ← natF j "k", pos := natD j "at", pa := natD j "pa" })
 
 /-- all recoverers of a case: (accepted, rejected, inconclusive, first message) -/
-def checkTraces (impl : Json) : R (Nat × Nat × Nat × String) := do
+def checkTraces (impl : Json) (closeErrOk : Bool := false) : R (Nat × Nat × Nat × String) := do
   let evs ← listOf evOf (fieldD impl "trace" (.arr #[]))
   let kinds ← listOf asStr (fieldD impl "traceKinds" (.arr #[]))
   let mut acc := 0
@@ -232,7 +266,11 @@ def checkTraces (impl : Json) : R (Nat × Nat × Nat × String) := do
   for r in [0:kinds.length] do
     let mine := (evs.filter fun p => p.1 == r).map (·.2)
     let kind := kinds.getD r "once"
-    let v := if kind == "v2" then checkTraceV2 mine.toArray else checkTrace (kind == "latched") mine.toArray
+    -- a case that makes a collaborator of a wrapped service fail in its Close is checked against the extended system (the
+    -- recoverers of the plugin are started by the plugin: the first `start.idle` of each is the step from `xfresh`)
+    let v := if kind == "v2" then checkTraceV2 mine.toArray
+             else if closeErrOk then checkTraceX (kind == "latched") true 0 mine.toArray true
+             else checkTrace (kind == "latched") mine.toArray
     if v.ok then acc := acc + 1
     else if v.inconclusive then inc := inc + 1
     else
@@ -240,14 +278,197 @@ def checkTraces (impl : Json) : R (Nat × Nat × Nat × String) := do
       if msg == "" then msg := s!"recoverer {r} ({kinds.getD r "once"}): {v.msg}"
   pure (acc, rej, inc, msg)
 
+def callsAfterClose (impl : Json) : Bool :=
+  match fieldD impl "callsAfterClose" (Json.mkObj []) with
+  | .obj kvs => kvs.toList.any fun (_, v) => (asNat v).toOption.getD 0 > 0
+  | _ => false
+
+def evsHave (impl : Json) (pt : String) : Bool :=
+  match fieldD impl "trace" (.arr #[]) with
+  | .arr a => a.any fun e => (asStr (fieldD e "p" (.str ""))).toOption.getD "" == pt
+  | _ => false
+
+/-! ### family "svc": scripts on one service -/
+
+def aliveOf (j : Json) : Alive :=
+  { serviceStart := natD j "serviceStart", service := natD j "service", inflight := natD j "inflight" }
+
+/-- harness result classes → the words of `OpObs.res` -/
+def normRes (wrap : Bool) (op res : String) : String :=
+  if res.startsWith "panic:" then "panicked!"
+  else if op == "start" then (if res == "pending" || res == "nil" then res else "refused")
+  else if op == "close" then
+    (if res == "nil" then "ok" else if res == "pending" then "pending" else if res == "recoverer-not-running" then "not-running"
+     else if wrap then "refused" else if res == "other" then "error" else "refused")
+  else if op == "cancel" then
+    (if wrap then "" else if res == "nil" || res == "pending" || res == "" then res else "error")
+  else if op == "panic" then (if res == "panicked" then "" else "outside")
+  else ""
+
+def bareOf (kind : String) (unsubFails : Bool) : Bare :=
+  if kind == "ticker" then bfresh .once true false false
+  else if kind == "coordinator" then bfresh .once false false false
+  else if kind == "metadataStore" then bfresh .flag true true unsubFails
+  else if kind == "runner" then bfresh .flag false false false
+  else bfresh .latched true false false
+
+structure SvcModel where
+  ops : List OpObs := []
+  outside : Bool := false
+  final : Alive := ⟨0, 0, 0⟩
+  closesReturned : Bool := true
+
+/-- the recoverer script with time: the cool-down elapses between two operations when the clock says so -/
+def runWrap (latched honours : Bool) (coolDownNs : Nat) (ops : List (String × Nat)) : SvcModel := Id.run do
+  let mut x := xfresh latched honours
+  let mut coolAt : Option Nat := none
+  let mut out : Array OpObs := #[]
+  let mut outside := false
+  for (op, tNow) in ops do
+    match coolAt with
+    | some t0 =>
+      if tNow == t0 + coolDownNs then outside := true     -- the very instant the timer fires: two orders
+      if tNow > t0 + coolDownNs && x.c.spc == .cool then
+        x := (xapply scriptFuel x .coolDown).1
+        coolAt := none
+    | none => pure ()
+    let xop : Option XOp := if op == "start" then some .start else if op == "cancel" then some .cancel else if op == "close" then some .close
+      else if op == "panic" then some .panic else none
+    let mut res := ""
+    match xop with
+    | some o =>
+      let (x1, r) := xapply scriptFuel x o
+      x := x1
+      res := r.str
+      if r == .outside then outside := true
+    | none => pure ()
+    if x.c.spc == .cool && coolAt.isNone then coolAt := some tNow
+    if x.c.spc != .cool then coolAt := none
+    let a := x.aliveNow
+    out := out.push { op := op, res := if op == "cancel" || op == "panic" then (if res == "outside" then res else "") else res,
+                      serviceStart := a.serviceStart, service := a.service, inflight := a.inflight }
+  let xe := (xapply scriptFuel x .coolDown).1
+  return { ops := out.toList, outside := outside, final := xe.aliveNow, closesReturned := decide (xe.c.cpc = .idle ∨ xe.c.cpc = .ret) }
+
+def runBare (b0 : Bare) (ops : List (String × Nat)) : SvcModel := Id.run do
+  let mut b := b0
+  let mut out : Array OpObs := #[]
+  let mut blocked := false
+  for (op, _) in ops do
+    let bop : Option BOp := if op == "start" then some .start else if op == "cancel" then some .cancel else if op == "close" then some .close else none
+    let mut res := ""
+    match bop with
+    | some o =>
+      let (b1, r) := bapply b o
+      b := b1
+      res := r.str
+      if r == .blocked then blocked := true
+    | none => pure ()
+    out := out.push { op := op, res := res, serviceStart := 0, service := b.loops, inflight := if blocked then 1 else 0 }
+  return { ops := out.toList, final := ⟨0, b.loops, if blocked then 1 else 0⟩, closesReturned := !blocked, outside := ops.any fun p => p.1 == "panic" }
+
+def runV2Obs (ops : List (String × Nat)) : SvcModel := Id.run do
+  let mut o : V2.VObs := { c := V2.vinit }
+  let mut out : Array OpObs := #[]
+  for (op, _) in ops do
+    let mut res := ""
+    if op == "start" then
+      o := V2.vapplyOp o true
+      res := "nil"
+    if op == "close" then
+      o := V2.vapplyOp o false
+      res := "ok"
+    let a := o.c.aliveNow
+    out := out.push { op := op, res := res, serviceStart := a.serviceStart, service := a.service, inflight := a.inflight }
+  return { ops := out.toList, final := o.c.aliveNow, outside := ops.any fun p => p.1 == "panic" || p.1 == "cancel" }
+
+def showOps (l : List OpObs) : String :=
+  " ".intercalate (l.map fun o => s!"{o.op}→{o.res}[{o.serviceStart},{o.service},{o.inflight}]")
+
+def handleSvc (input impl : Json) : R Reply := do
+  let kind ← strF input "kind"
+  let wrap := boolD input "wrap" false
+  let unsubFails := (asStr (fieldD input "closeFault" (.str ""))).toOption.getD "" == "unsubscribe"
+  let coolDownNs ← natF input "coolDownNs"
+  let opsIn ← listOf (fun j => do pure (← strF j "op", natD j "ns")) (fieldD input "ops" (.arr #[]))
+  let resIn ← listOf asStr (fieldD impl "opRes" (.arr #[]))
+  let atIn ← listOf asNat (fieldD impl "opAtNs" (.arr #[]))
+  let aliveIn ← listOf (fun j => pure (aliveOf j)) (fieldD impl "opAlive" (.arr #[]))
+  let complete := resIn.length == opsIn.length && aliveIn.length == opsIn.length && atIn.length == opsIn.length
+  let crashed := (match impl.getObjVal? "crashed" with | .ok (.str p) => p != "" | _ => false)
+  let hung := (match impl.getObjVal? "hung" with | .ok (.str p) => p != "" | _ => false)
+  let exit := (asStr (fieldD impl "exit" (.str "ok"))).toOption.getD "ok"
+  let phase := (asStr (fieldD impl "phase" (.str ""))).toOption.getD ""
+  let survived := boolD impl "survived" false && !crashed && (phase == "done" || phase == "measured") && (exit == "ok" || hung)
+  -- a Close the harness did not issue (the previous one had not returned) is a pause
+  let opsIn := (opsIn.zip (resIn ++ List.replicate opsIn.length "")).map fun ((op, ns), r) => if op == "close" && r == "skipped" then ("wait", ns) else (op, ns)
+  let obsOps : List OpObs := (opsIn.zip (resIn.zip aliveIn)).map fun ((op, _), (r, a)) =>
+    { op := op, res := normRes wrap op r, serviceStart := a.serviceStart, service := a.service, inflight := a.inflight }
+  let finA := aliveOf (fieldD impl "leaked" (Json.mkObj []))
+  let goodTicks := natD impl "goodTicks"
+  let closesRet : Bool := !(boolD impl "closeCalled" false) || boolD impl "closeReturned" false
+  let o : ScriptObs :=
+    { survived := survived, hung := hung, ops := obsOps, finalServiceStart := finA.serviceStart, finalService := finA.service,
+      finalInflight := finA.inflight, closesReturned := closesRet, process := natD impl "process", goodTicks := goodTicks,
+      -- (a block source that fails to unsubscribe keeps its own record: not something the store left behind)
+      finalSubscribed := if unsubFails then 0 else natD impl "subscribed" }
+  let timed := opsIn.zip atIn |>.map fun ((op, _), tAt) => (op, tAt)
+  let latched := kind == "resultStore"
+  let honours := kind == "ticker" || kind == "resultStore" || kind == "metadataStore"
+  let md : SvcModel :=
+    if kind == "v2observer" then runV2Obs timed
+    else if wrap then runWrap latched honours coolDownNs timed
+    else runBare (bareOf kind unsubFails) timed
+  let m : ScriptObs :=
+    { survived := true, hung := false, ops := md.ops, finalServiceStart := md.final.serviceStart, finalService := md.final.service,
+      finalInflight := md.final.inflight, closesReturned := md.closesReturned, process := goodTicks, goodTicks := goodTicks }
+  let guarded := wrap || kind != "resultStore"
+  -- the trace of the recoverer (wrap) / of the observer's RecoverableService
+  let evs ← listOf evOf (fieldD impl "trace" (.arr #[]))
+  let mine := (evs.filter fun p => p.1 == 0).map (·.2)
+  let cancels := (opsIn.filter fun p => p.1 == "cancel").length
+  let tv : TraceVerdict :=
+    if mine.isEmpty then { ok := true }
+    else if kind == "v2observer" then checkTraceV2 mine.toArray
+    else checkTraceX latched honours cancels mine.toArray unsubFails
+  let traceBad := !tv.ok && !tv.inconclusive
+  let same := complete && o.ops == m.ops && decide (o.finalServiceStart = m.finalServiceStart) && decide (o.finalService = m.finalService) &&
+    decide (o.finalInflight = m.finalInflight) && o.closesReturned == m.closesReturned && decide (o.process = o.goodTicks)
+  -- a metadata store whose Unsubscribe fails refuses its Close and keeps running: the recoverer model has no such service step
+  let md := if wrap && unsubFails then { md with outside := true } else md
+  let agree := o.survived == m.survived && o.hung == m.hung && (md.outside || !o.survived || same) && !traceBad
+  let si := specScript wrap guarded o honours
+  let sm := specScript wrap guarded m honours
+  let script := " ".intercalate (opsIn.map fun p => p.1)
+  pure { agree := agree, specModel := sm || md.outside, specImpl := si,
+         diff := if agree then "" else if traceBad then s!"trace rejected: {tv.msg}" else s!"model: {showOps m.ops} final [{m.finalServiceStart},{m.finalService},{m.finalInflight}] closesReturned={m.closesReturned}; impl: {showOps o.ops} final [{o.finalServiceStart},{o.finalService},{o.finalInflight}] closesReturned={o.closesReturned} process={o.process} goodTicks={o.goodTicks} survived={o.survived} complete={complete}",
+         fail := if si then "" else explainScript wrap guarded o honours,
+         nontrivial := true,
+         tags := ["scenario:script", "family:svc", "kind:" ++ kind, if wrap then "behind-recoverer" else "bare-service"] ++
+           (if md.outside then ["outside-model"] else []) ++
+           (if mine.isEmpty then ["untraced"] else if traceBad then ["trace-rejected"] else if tv.inconclusive then ["trace-search-inconclusive"] else ["trace-accepted"]) ++
+           (if evsHave impl "ss.ctxdone" then ["start-context-ended"] else []) ++
+           (if evsHave impl "start.running" then ["start-while-running"] else []) ++
+           (if evsHave impl "close.full" then ["close-found-channel-full"] else []) ++
+           (if evsHave impl "close.drained" then ["close-drained"] else []) ++
+           (if evsHave impl "v2.stop.notrunning" then ["v2-stop-not-running"] else []) ++
+           (if obsOps.any (fun o => o.op == "start" && o.res == "refused") then ["start-refused"] else []) ++
+           (if si then [] else ["script-spec-failed"]),
+         key := s!"svc|{kind}|{wrap}|{(asStr (fieldD input "getter" (.str ""))).toOption.getD ""}|{unsubFails}|{script}|{atIn}" }
+
 def handle (input impl : Json) : R Reply := do
+  if (asStr (fieldD input "family" (.str ""))).toOption.getD "" == "svc" then return ← handleSvc input impl
   let cs ← caseOf input
   let o := obsOf impl
+  let o := if cs.ctorFault == "" then { o with ctorFailed := true, ctorLeft := 0 } else o
+  -- a block source that FAILS to unsubscribe keeps its record of the subscription: not something the instance left running
+  let o := if cs.closeFault == "unsubscribe" then { o with ticking := callsAfterClose impl } else o
   let died := !o.survived
   -- a panic site whose first panicking call was never reached injects nothing
-  let m := predict current cs o.closedAtNs o.errNotRunning o.errNotStarted (o.closeCalled || (cs.scenario == "close")) (if died then 1 else o.panicsInjected)
+  let m := predictFull current unsubStopsNow cs o.closedAtNs o.errNotRunning o.errNotStarted (o.closeCalled || (cs.scenario == "close")) (if died then 1 else o.panicsInjected)
   let agreeLive :=
-    o.closeReturned == m.closeReturned && decide (o.errOther = 0) &&
+    o.closeReturned == m.closeReturned && decide (o.errOther = m.errOther) &&
+    o.ctorFailed == m.ctorFailed && decide (o.ctorLeft = m.ctorLeft) && o.ticking == m.ticking &&
     o.closePanicked == m.closePanicked && o.firstCloseBad == m.firstCloseBad && lingerOk cs o == lingerOk cs m &&
     (!progressDue cs o || (decide (o.progress > 0) == decide (m.progress > 0))) &&
     decide (o.errNotRunning = m.errNotRunning) && decide (o.errNotStarted = m.errNotStarted) &&
@@ -255,12 +476,12 @@ def handle (input impl : Json) : R Reply := do
     o.bubbleEnded == m.bubbleEnded &&
     decide (o.after2ndServiceStart = m.after2ndServiceStart) && decide (o.after2ndService = m.after2ndService) &&
     (!panicClauseApplies cs o || (o.resumed == m.resumed && o.othersTicked == m.othersTicked && (decide (cs.work = 0) || o.pipelineDone == m.pipelineDone)))
-  let (trAcc, trRej, trInc, trMsg) ← checkTraces impl
+  let (trAcc, trRej, trInc, trMsg) ← checkTraces impl (cs.closeFault == "unsubscribe")
   let traced := trAcc + trRej + trInc > 0
   let agree := o.survived == m.survived && o.hung == m.hung && (died || agreeLive) && decide (trRej = 0)
-  let sm := spec cs m
-  let si := spec cs o
-  let fail := if si then "" else explain cs o
+  let sm := specFull cs m
+  let si := specFull cs o
+  let fail := if si then "" else explainFull cs o
   let closeAt := natD input "closeAt"
   let tags :=
     ["scenario:" ++ cs.scenario] ++
@@ -275,15 +496,21 @@ def handle (input impl : Json) : R Reply := do
     (match input.getObjVal? "family" with | .ok (.str "v2") => ["family:v2"] | _ => []) ++
     (match input.getObjVal? "holdSite" with | .ok (.str h) => if h != "" then ["hold-site:" ++ h] else [] | _ => []) ++
     (if cs.panicSite != "" then ["panic-site:" ++ cs.panicSite] else []) ++
-    (if si then [] else [(classify cs o).tag]) ++
+    (if si then [] else [(classifyFull cs o).tag]) ++
+    (if cs.ctorFault != "" then ["ctor-fault:" ++ cs.ctorFault] else []) ++
+    (if cs.closeFault != "" then ["close-fault:" ++ cs.closeFault] else []) ++
+    (match input.getObjVal? "gate" with | .ok (.str h) => if h != "" then ["gate:" ++ h] else [] | _ => []) ++
+    (if (evsHave impl "close.full") then ["close-found-channel-full"] else []) ++
+    (if (evsHave impl "close.drained") then ["close-drained"] else []) ++
+    (if (evsHave impl "close.empty") then ["close-drain-found-nothing"] else []) ++
     (if o.survived && decide (o.panicsInjected > 0) then ["panic-contained"] else []) ++
     (if o.closeReturned && !o.leak then ["clean-close"] else []) ++
     (if cs.scenario == "panic-close" && decide (closeAt < cs.coolDownNs) then ["close-soon-after-panic"] else []) ++
     (if natD input "work" > 0 then ["work-in-flight"] else []) ++
     (if cs.scenario == "close" then ["close-at:" ++ closeAtBucket closeAt] else [])
-  let key := s!"{boolD input "holdCtx" false}|{(asStr (fieldD input "shape" (.str ""))).toOption.getD ""}/{boolD input "repeatWork" false}/{boolD input "rounds" false}/{(fieldD input "runner" .null).compress}/{(asStr (fieldD input "offchain" (.str ""))).toOption.getD ""}|r{natD input "reuse"}/{natD input "reuseRunNs"}/{natD input "reuseGapNs"}/{(asStr (fieldD input "reuseCfg" (.str ""))).toOption.getD ""}|{(asStr (fieldD input "family" (.str ""))).toOption.getD ""}|{(asStr (fieldD input "holdSite" (.str ""))).toOption.getD ""}|{natD input "holdNs"}|{natD input "holdAtCall"}|{cs.scenario}|{cs.panicSite}|{closeAtBucket closeAt}|y{natD input "yields"}|p{natD input "preYields"}|w{natD input "work"}|l{cs.latencyNs}|a{natD input "panicAtCall"}c{natD input "panicCount"}|{closeAt}|nr{o.errNotRunning}ns{o.errNotStarted}"
+  let key := s!"{cs.ctorFault}|{cs.closeFault}|{(asStr (fieldD input "gate" (.str ""))).toOption.getD ""}|{boolD input "holdCtx" false}|{(asStr (fieldD input "shape" (.str ""))).toOption.getD ""}/{boolD input "repeatWork" false}/{boolD input "rounds" false}/{(fieldD input "runner" .null).compress}/{(asStr (fieldD input "offchain" (.str ""))).toOption.getD ""}|r{natD input "reuse"}/{natD input "reuseRunNs"}/{natD input "reuseGapNs"}/{(asStr (fieldD input "reuseCfg" (.str ""))).toOption.getD ""}|{(asStr (fieldD input "family" (.str ""))).toOption.getD ""}|{(asStr (fieldD input "holdSite" (.str ""))).toOption.getD ""}|{natD input "holdNs"}|{natD input "holdAtCall"}|{cs.scenario}|{cs.panicSite}|{closeAtBucket closeAt}|y{natD input "yields"}|p{natD input "preYields"}|w{natD input "work"}|l{cs.latencyNs}|a{natD input "panicAtCall"}c{natD input "panicCount"}|{closeAt}|nr{o.errNotRunning}ns{o.errNotStarted}"
   pure { agree := agree, specModel := sm, specImpl := si,
-         diff := if agree then "" else if trRej > 0 then s!"trace rejected ({trRej} of {trAcc + trRej + trInc} recoverers): {trMsg}" else s!"model: survived={m.survived} closeReturned={m.closeReturned} notRunning={m.errNotRunning} notStarted={m.errNotStarted} serviceStart={m.leakedServiceStart} service={m.leakedService} bubbleEnded={m.bubbleEnded} resumed={m.resumed} leftAfter1s={m.soonLeft}; impl: survived={o.survived} closeReturned={o.closeReturned} notRunning={o.errNotRunning} notStarted={o.errNotStarted} serviceStart={o.leakedServiceStart} service={o.leakedService} bubbleEnded={o.bubbleEnded} resumed={o.resumed} leftAfter1s={o.soonLeft} errOther={o.errOther}",
+         diff := if agree then "" else if trRej > 0 then s!"trace rejected ({trRej} of {trAcc + trRej + trInc} recoverers): {trMsg}" else s!"model: survived={m.survived} closeReturned={m.closeReturned} notRunning={m.errNotRunning} notStarted={m.errNotStarted} serviceStart={m.leakedServiceStart} service={m.leakedService} bubbleEnded={m.bubbleEnded} resumed={m.resumed} leftAfter1s={m.soonLeft}; impl: survived={o.survived} closeReturned={o.closeReturned} notRunning={o.errNotRunning} notStarted={o.errNotStarted} serviceStart={o.leakedServiceStart} service={o.leakedService} bubbleEnded={o.bubbleEnded} resumed={o.resumed} leftAfter1s={o.soonLeft} errOther={o.errOther} ctorFailed={o.ctorFailed} ctorLeft={o.ctorLeft} ticking={o.ticking} (model: errOther={m.errOther} ctorFailed={m.ctorFailed} ctorLeft={m.ctorLeft} ticking={m.ticking})",
          fail := fail, nontrivial := true, tags := tags, key := key }
 
 end AutoVerif.C18
